@@ -293,6 +293,13 @@ def _partition(run, repo, world, rx, folder, mod):
                    where(mod, b.value))
             continue
         o = s.d(v)
+        if o is None or not hasattr(o, "cls") or o.cls is None:
+            run.ob("R-ADDR-PART", "instance#no-kind[%s]" % cube_str(s), False,
+                   "instance_from_frame returns %r for instance bytes %s: "
+                   "every byte must decode to exactly one instance kind (or "
+                   "the reserved kind)" % (o, cube_str(s)),
+                   where(mod, b.value))
+            continue
         leaves.append((o.cls.name, s.cube, s.neg, o, s))
 
     def std_inst(byte):
